@@ -111,6 +111,9 @@ func check(c Case) (feat features, sig string, err error) {
 		}
 	}()
 	oldG, newG := c.Old.Go(), c.New.Go()
+	if c.Mode == "alias" {
+		oldG, newG = shareArrays(oldG, newG)
+	}
 	oldCopy, newCopy := c.Old.Go(), c.New.Go()
 
 	d := diff.Diff(oldG, newG)
@@ -193,11 +196,59 @@ func check(c Case) (feat features, sig string, err error) {
 	return feat, "", nil
 }
 
+// shareArrays makes the two trees share memory the way values derived from one another do:
+// wherever an array of new is a prefix of the corresponding array of old it becomes old[:n]
+// (same backing array, shorter), and wherever it extends old's array, old's array is given
+// spare capacity and new's becomes append(old, extra...). The values are unchanged.
+func shareArrays(old, new interface{}) (interface{}, interface{}) {
+	switch o := old.(type) {
+	case map[string]interface{}:
+		n, ok := new.(map[string]interface{})
+		if !ok {
+			return old, new
+		}
+		for k, ov := range o {
+			if nv, ok := n[k]; ok {
+				o[k], n[k] = shareArrays(ov, nv)
+			}
+		}
+		return o, n
+	case []interface{}:
+		n, ok := new.([]interface{})
+		if !ok {
+			return old, new
+		}
+		common := len(o)
+		if len(n) < common {
+			common = len(n)
+		}
+		same := true
+		for i := 0; i < common; i++ {
+			if !reflect.DeepEqual(o[i], n[i]) {
+				same = false
+			}
+		}
+		if !same || len(o) == 0 {
+			for i := 0; i < common; i++ {
+				o[i], n[i] = shareArrays(o[i], n[i])
+			}
+			return o, n
+		}
+		if len(n) <= len(o) {
+			return o, o[:len(n)]
+		}
+		grown := make([]interface{}, len(o), len(n)+1)
+		copy(grown, o)
+		return grown, append(grown, n[len(o):]...)
+	}
+	return old, new
+}
+
 func genCase(t *rapid.T) Case {
 	typed := rapid.Bool().Draw(t, "typed")
 	depth := rapid.IntRange(1, 4).Draw(t, "depth")
 	old := jv.Gen(t, depth, typed)
-	mode := rapid.SampledFrom([]string{"edit", "edit", "edit", "edit", "edit", "edit", "edit", "indep", "indep", "copy"}).Draw(t, "mode")
+	mode := rapid.SampledFrom([]string{"edit", "edit", "edit", "edit", "edit", "edit", "alias", "indep", "indep", "copy"}).Draw(t, "mode")
 	c := Case{Old: old, Mode: mode}
 	switch mode {
 	case "copy":
@@ -206,6 +257,9 @@ func genCase(t *rapid.T) Case {
 		c.New = jv.Gen(t, depth, typed)
 	default:
 		n := rapid.IntRange(1, 6).Draw(t, "nedits")
+		if mode == "alias" && n > 2 {
+			n = 2 // few edits: more arrays stay prefixes / extensions of their old selves
+		}
 		cur := old
 		for i := 0; i < n; i++ {
 			var lbl string
